@@ -1282,7 +1282,14 @@ class Ctx:
         """fork over the feasible values of an integer term"""
         for _ in range(self.max_int_values):
             f = self.feas
-            if str(f.check()) != "sat":
+            f.set("timeout", 60000)
+            try:
+                r = str(f.check())
+            finally:
+                f.set("timeout", self.branch_timeout_ms)
+            if r == "unknown":
+                raise Budget("solver gave up while enumerating the values of a symbolic integer")
+            if r != "sat":
                 raise Infeasible()
             m = f.model()
             v = m.eval(s.re.z3(), model_completion=True)
